@@ -224,6 +224,11 @@ Proof.
   - inversion H; subst; clear H; cbn [out0_nulfree]. now apply nulfree_strip_ch_prefix_nc.
   - inversion H; subst; clear H; cbn [out0_nulfree]. destruct A as [Aa As]. apply nulfree_with_word; trivial. now apply lit_nulfree.
   - inversion H; subst; clear H; cbn [out0_nulfree]. now apply nulfree_indented.
+  - inversion H; subst; clear H; cbn [out0_nulfree]. apply nulfree_app; split; [exact F|constructor; [exact A|constructor]].
+  - inversion H; subst; clear H; cbn [out0_nulfree]. apply nulfree_app; split; [exact (cstr_is_nulfree [ch])|exact F].
+  - inversion H; subst; clear H; cbn [out0_nulfree]. apply nulfree_app; split; [apply A|exact F].
+  - inversion H; subst; clear H; cbn [out0_nulfree]. now apply nulfree_l0_minus.
+  - inversion H; subst; clear H; cbn [out0_nulfree]. now apply nulfree_l0_minus_ch.
   - inversion H; subst; clear H; cbn [out0_nulfree]. now apply nulfree_escaped.
 Qed.
 
